@@ -136,7 +136,7 @@ class _RabbitConsumer(ConsumerT):
         rejects = []
         while self.queue.qsize() > 0:
             key, _, _ = self.queue.get_nowait()
-            tag = self.broker._id_to_delivery_tag.pop(key.id_, None)
+            tag = self.broker._id_to_delivery_tag.pop(self.broker._delivery_tag_key(key), None)
             if tag is not None:
                 rejects.append(self.broker._channel.basic_reject(tag))
             else:  # pragma: no cover
@@ -206,23 +206,19 @@ class _RabbitConsumer(ConsumerT):
             logger.debug("Message is overdue, placing it in dlx.")
             return
 
-        # save delivery tag for the future
-        self.broker._id_to_delivery_tag[msg_id] = message.delivery_tag
-
-        # create a key object and put message in in-memory queue to be picked up soon
-        await self.queue.put(
-            (
-                self.broker.ROUTING_KEY_CLASS(
-                    id_=msg_id,
-                    topic=msg_topic,
-                    queue=msg_queue,
-                    priority=(
-                        message.header.properties.priority
-                        if message.header.properties.priority is not None
-                        else PrioritiesT.MEDIUM.value
-                    ),
-                ),
-                decoded["payload"],
-                params,
+        key = self.broker.ROUTING_KEY_CLASS(
+            id_=msg_id,
+            topic=msg_topic,
+            queue=msg_queue,
+            priority=(
+                message.header.properties.priority
+                if message.header.properties.priority is not None
+                else PrioritiesT.MEDIUM.value
             ),
         )
+
+        # save delivery tag for the future
+        self.broker._id_to_delivery_tag[self.broker._delivery_tag_key(key)] = message.delivery_tag
+
+        # put message in in-memory queue to be picked up soon
+        await self.queue.put((key, decoded["payload"], params))
